@@ -60,6 +60,18 @@ MCInput4 ==
           [fr |-> Fr(51, <<0, 0, 0, 0, 0, 4>>, 10, PA), dec |-> TRUE] >>
 MCCuts4 == 1 :> {} @@ 2 :> {23, 47}
 
+(* fifth instance: a merged reception followed on its receiver by two more  *)
+(* frames (a lost member is then certainly missing)                          *)
+PC == <<160, 0, 2, 156, 133, 228, 47, 49, 48, 0, 0, 112, 71, 211>>          \* DF20 4243d0
+MCInput5 ==
+  1 :> << [fr |-> Fr(51, <<0, 0, 0, 0, 26, 1>>, 10, PA), dec |-> TRUE],
+          [fr |-> Fr(51, <<0, 0, 0, 0, 0, 2>>, 10, PX), dec |-> FALSE] >>
+  @@
+  2 :> << [fr |-> Fr(51, <<0, 0, 0, 0, 0, 1>>, 26, PA), dec |-> TRUE],
+          [fr |-> Fr(51, <<0, 0, 0, 0, 0, 2>>, 10, PB), dec |-> TRUE],
+          [fr |-> Fr(51, <<0, 0, 0, 0, 0, 3>>, 10, PC), dec |-> TRUE] >>
+MCCuts5 == 1 :> {24} @@ 2 :> {24, 47}
+
 ASSUME InputAdmissible
 
 MCCfgSetQ == { [df |-> FLT!Absent, ac |-> FLT!Absent],
